@@ -395,3 +395,132 @@ func init() {
 	}
 }
 
+
+// ---------------------------------------------------------------------------
+// sync.Map and the integer atomics (sequential semantics; operations count as
+// synchronisation in the footprint lemma). A sync.Map's content lives in a side
+// table keyed by the map's address; keys are compared like interface values
+// (a comparison of symbolic strings forks).
+// ---------------------------------------------------------------------------
+
+type syncMapEntry struct{ k, v Iface }
+
+func (e *Exec) syncMap(p *Value) *[]syncMapEntry {
+	if p == nil {
+		e.goPanic("invalid memory address or nil pointer dereference")
+	}
+	if e.syncMaps == nil {
+		e.syncMaps = map[*Value]*[]syncMapEntry{}
+	}
+	m := e.syncMaps[p]
+	if m == nil {
+		m = &[]syncMapEntry{}
+		e.syncMaps[p] = m
+	}
+	e.noteAtomic(p)
+	return m
+}
+
+func (e *Exec) syncMapFind(m *[]syncMapEntry, k Iface) int {
+	for i, en := range *m {
+		if e.Branch(e.valueEq(nil, en.k, k)) {
+			return i
+		}
+	}
+	return -1
+}
+
+func init() {
+	models["(*sync.Map).Load"] = func(e *Exec, c *frame, fn *ssa.Function, a []Value) Value {
+		m := e.syncMap(a[0].(*Value))
+		if i := e.syncMapFind(m, a[1].(Iface)); i >= 0 {
+			return Tuple{(*m)[i].v, sym.Bool(true)}
+		}
+		return Tuple{Iface{}, sym.Bool(false)}
+	}
+	models["(*sync.Map).Store"] = func(e *Exec, c *frame, fn *ssa.Function, a []Value) Value {
+		m := e.syncMap(a[0].(*Value))
+		if i := e.syncMapFind(m, a[1].(Iface)); i >= 0 {
+			(*m)[i].v = a[2].(Iface)
+			return nil
+		}
+		*m = append(*m, syncMapEntry{a[1].(Iface), a[2].(Iface)})
+		return nil
+	}
+	models["(*sync.Map).LoadOrStore"] = func(e *Exec, c *frame, fn *ssa.Function, a []Value) Value {
+		m := e.syncMap(a[0].(*Value))
+		if i := e.syncMapFind(m, a[1].(Iface)); i >= 0 {
+			return Tuple{(*m)[i].v, sym.Bool(true)}
+		}
+		*m = append(*m, syncMapEntry{a[1].(Iface), a[2].(Iface)})
+		return Tuple{a[2].(Iface), sym.Bool(false)}
+	}
+	models["(*sync.Map).LoadAndDelete"] = func(e *Exec, c *frame, fn *ssa.Function, a []Value) Value {
+		m := e.syncMap(a[0].(*Value))
+		if i := e.syncMapFind(m, a[1].(Iface)); i >= 0 {
+			v := (*m)[i].v
+			*m = append(append([]syncMapEntry{}, (*m)[:i]...), (*m)[i+1:]...)
+			return Tuple{v, sym.Bool(true)}
+		}
+		return Tuple{Iface{}, sym.Bool(false)}
+	}
+	models["(*sync.Map).Delete"] = func(e *Exec, c *frame, fn *ssa.Function, a []Value) Value {
+		m := e.syncMap(a[0].(*Value))
+		if i := e.syncMapFind(m, a[1].(Iface)); i >= 0 {
+			*m = append(append([]syncMapEntry{}, (*m)[:i]...), (*m)[i+1:]...)
+		}
+		return nil
+	}
+	models["(*sync.Map).Range"] = func(e *Exec, c *frame, fn *ssa.Function, a []Value) Value {
+		m := e.syncMap(a[0].(*Value))
+		for _, en := range append([]syncMapEntry{}, (*m)...) {
+			r := e.CallValue(a[1], en.k, en.v).(sym.Sc)
+			if !e.Branch(r) {
+				break
+			}
+		}
+		return nil
+	}
+	// integer atomics: the value lives in the struct's field "v"
+	for _, t := range []struct {
+		name string
+		w    int
+	}{{"Int64", 64}, {"Uint64", 64}, {"Int32", 32}, {"Uint32", 32}} {
+		t := t
+		field := func(e *Exec, p *Value) *Value {
+			if p == nil {
+				e.goPanic("invalid memory address or nil pointer dereference")
+			}
+			nt := e.M.namedType("sync/atomic", t.name)
+			f := &((*p).(Struct)[structFieldIndex(nt, "v")])
+			e.noteAtomic(f)
+			return f
+		}
+		models["(*sync/atomic."+t.name+").Load"] = func(e *Exec, c *frame, fn *ssa.Function, a []Value) Value {
+			return *field(e, a[0].(*Value))
+		}
+		models["(*sync/atomic."+t.name+").Store"] = func(e *Exec, c *frame, fn *ssa.Function, a []Value) Value {
+			*field(e, a[0].(*Value)) = a[1]
+			return nil
+		}
+		models["(*sync/atomic."+t.name+").Add"] = func(e *Exec, c *frame, fn *ssa.Function, a []Value) Value {
+			f := field(e, a[0].(*Value))
+			*f = e.norm(sym.Add((*f).(sym.Sc), a[1].(sym.Sc)))
+			return *f
+		}
+		models["(*sync/atomic."+t.name+").Swap"] = func(e *Exec, c *frame, fn *ssa.Function, a []Value) Value {
+			f := field(e, a[0].(*Value))
+			old := *f
+			*f = a[1]
+			return old
+		}
+		models["(*sync/atomic."+t.name+").CompareAndSwap"] = func(e *Exec, c *frame, fn *ssa.Function, a []Value) Value {
+			f := field(e, a[0].(*Value))
+			if e.Branch(sym.Eq((*f).(sym.Sc), a[1].(sym.Sc))) {
+				*f = a[2]
+				return sym.Bool(true)
+			}
+			return sym.Bool(false)
+		}
+	}
+}
